@@ -223,7 +223,7 @@ func unmarshalMap(dec *msgpack.Decoder, ety cty.Type, path cty.Path) (cty.Value,
 	path = append(path, nil)
 	for i := 0; i < length; i++ {
 		key, err := dec.DecodeString()
-		if err != nil {
+		if err != nil || !utf8.ValidString(key) {
 			return cty.DynamicVal, path[:len(path)-1].NewErrorf("non-string key in map")
 		}
 
